@@ -51,10 +51,27 @@ def parseMCNPSurface(mcnp_parser):
     return dict_surface
 
 
+# number of parameters accepted for each surface mnemonic
+N_PARAMS = {MS.PX: (1,), MS.PY: (1,), MS.PZ: (1,), MS.P: (4, 9),
+            MS.SO: (1,), MS.S: (4,), MS.SX: (2,), MS.SY: (2,), MS.SZ: (2,),
+            MS.C_X: (3,), MS.C_Y: (3,), MS.C_Z: (3,),
+            MS.CX: (1,), MS.CY: (1,), MS.CZ: (1,),
+            MS.K_X: (4, 5), MS.K_Y: (4, 5), MS.K_Z: (4, 5),
+            MS.KX: (2, 3), MS.KY: (2, 3), MS.KZ: (2, 3),
+            MS.SQ: (10,), MS.GQ: (10,),
+            MS.TX: (5, 6), MS.TY: (5, 6), MS.TZ: (5, 6),
+            MS.X: (2, 4, 6), MS.Y: (2, 4, 6), MS.Z: (2, 4, 6)}
+
+
 def normalize_surface(typ, params):
     '''Put the surface parametrization in a canonical form. For instance,
     planes defined by three points are transformed into the equivalent
     (A,B,C,D) representation.'''
+    expected = N_PARAMS.get(typ)
+    if expected is not None and len(params) not in expected:
+        raise ValueError(f'Surfaces of type {typ.name} expect '
+                         f'{" or ".join(map(str, expected))} parameters, '
+                         f'{len(params)} were given: {params}')
     if typ == MS.P:
         if len(params) == 9:
             params = planeParamsFromPoints(params[0:3],
